@@ -5,6 +5,25 @@ package jd
 func init() {
 	vHarnesses["VerifC11Merge"] = VerifC11Merge
 	vHarnesses["VerifC11Canary"] = VerifC11Canary
+	vHarnesses["VerifC11Deep"] = VerifC11Deep
+}
+
+// VerifC11Deep: small objects below a chain of keys of every length up to DEPTH.
+func VerifC11Deep() {
+	depth := vChoice(vParam("DEPTH", 7) + 1)
+	var a, b JsonNode = vSmallObj(), vSmallObj()
+	for i := 0; i < depth; i++ {
+		a, b = jsonObject{"p": a}, jsonObject{"p": b}
+	}
+	vAssume(!refEq(a, b, modeList, 0))
+	d := a.Diff(b, MERGE)
+	s, err := d.RenderMerge()
+	vAssert(err == nil, "RenderMerge failed on a merge-mode diff")
+	vObserve("merge", s)
+	p, err := ReadJsonString(s)
+	vAssert(err == nil, "rendered merge patch is not valid JSON")
+	vAssert(refEq(ref7386(a, p), b, modeList, 0), "MergePatch(a, rendered patch) differs from b")
+	vCover("c11.deep")
 }
 
 // VerifC11Merge: the rendered JSON Merge Patch, applied to a by the RFC 7386 algorithm, gives b.
